@@ -492,6 +492,7 @@ class Collector:
         self.cv = threading.Condition()
         self.sent_paths = sent_paths
         self.sentinels = 0
+        self.misspelled: list = []
         self.polling = False
 
     def dispatch(self, event):
@@ -507,6 +508,10 @@ class Collector:
                         self.cv.notify_all()
             elif event.src_path in self.sent_paths and type(event).__name__ == "FileModifiedEvent":
                 self.sentinels += 1
+                self.cv.notify_all()
+            elif type(event).__name__ == "FileModifiedEvent" and os.path.basename(os.fsdecode(event.src_path)) == SENT:
+                # the sentinel's own event, but not under the path it has (the root as scheduled + its name)
+                self.misspelled.append(event.src_path)
                 self.cv.notify_all()
 
 
@@ -623,7 +628,11 @@ class Session:
                 self.col.cv.wait(min(rem, 0.5))
                 if self.col.sentinels < self.n_sent and monitors.exc_since(self.exc_mark):
                     break
+                if self.col.sentinels < self.n_sent and self.col.misspelled:
+                    break
             ok = self.col.sentinels >= self.n_sent
+        if not ok and self.col.misspelled:
+            raise DrainFailed("sentinel-misspelled", {"got": repr(self.col.misspelled[0]), "want": repr(self.sent_path)})
         if not ok:
             recs = [x for x in monitors.exc_since(self.exc_mark)]
             if recs:
